@@ -241,7 +241,22 @@ let kvhist (type v) (cfg : v cfg) (rn : v runner)
 (* ---------- commands ---------- *)
 let run_case (fn : string) : unit =
   match fn with
-  | "order" -> let a = rd_sval () in let b = rd_sval () in pr_cmp_opt (order a b)
+  | "order" ->
+      let a = rd_sval () in let b = rd_sval () in pr_cmp_opt (order a b);
+      (* specification: SQLite's exact order, on valid (non-NULL, non-NaN) keys *)
+      pr "|";
+      (match order_exact a b with
+       | Some c when not (is_nan_key a) && not (is_nan_key b) ->
+           pr_z (cmp_to_Z c); pr (if safe_key a && safe_key b then "s" else "u")
+       | _ -> pr "-")
+  | "layerpair" ->
+      let a = rd_sval () in let b = rd_sval () in let bf = rd_z () in
+      pr_z (layer a bf); pr_z (layer b bf);
+      pr "|";
+      (match order_exact a b with
+       | Some Eq when not (is_nan_key a) && not (is_nan_key b) ->
+           pr "E"; pr (if a = b then "i" else "x")
+       | _ -> pr "-")
   | "order_exact" -> let a = rd_sval () in let b = rd_sval () in pr_cmp_opt (order_exact a b)
   | "layer" -> let k = rd_sval () in let bf = rd_z () in pr_z (layer k bf)
   | "crc64" -> let b = rd_bytes () in pr_z (crc64 b)
